@@ -244,12 +244,27 @@ def report_mux(prop, tier, tags, res, cases, stats, t0, known, level, mc_cfgs):
 
 @check("C01")
 def c01(prop, tier, replay):
-    mux_family(prop, tier, replay, {"C01"})
+    mux_family(prop, tier, replay, {"C01"}, extra_cases=duration_cases(random.Random(seed()), "dur"))
+
+
+def mdat_boundary_cases(tier, rng):
+    """media data boxes whose size sits exactly on the 32-bit limit of the size field: the box
+    (8 bytes header + 8 bytes placeholder + payload) is 2^32 - 1, 2^32, 2^32 + 7, 2^32 + 8 bytes long"""
+    H = 1 << 31
+    out = []
+    for i, lens in enumerate([[H - 8, H - 8], [H - 8, H - 1]] + ([[H - 9, H - 8], [H - 4, H - 4]] if tier == "thorough" else [])):
+        calls = [{"op": "add", "conf": full_conf("avc", 1000, rng)}]
+        for k, ln in enumerate(lens):
+            calls.append({"op": "write", "t": 1, "len": ln, "fill": 0x41 + k, "dur": big(1000), "cts": 0, "sync": k == 0, "valid": True})
+        out.append({"id": "mdat4g-%d" % i, "seed": i, "twice": False, "readback": False,
+                    "cfg": {"major": s4("isom"), "minor": big(512), "brands": [s4("isom")], "timescale": big(1000)},
+                    "pos": [], "calls": calls})
+    return out
 
 
 @check("C02")
 def c02(prop, tier, replay):
-    mux_family(prop, tier, replay, {"C02"})
+    mux_family(prop, tier, replay, {"C02"}, extra_cases=mdat_boundary_cases(tier, random.Random(seed())))
 
 
 # ----------------------------------------------------------------------------------------
@@ -329,8 +344,30 @@ def cfg_case(idx, confs, rng, movie_ts=1000, brands=None, major="isom", minor=51
             "pos": [], "calls": calls}
 
 
+def duration_cases(rng, tag):
+    """histories whose duration sums sit on the 32-bit boundaries of the header fields and of the
+    run-length time table (durations cost nothing: the samples are a few bytes long)"""
+    U = 0xFFFFFFFF
+    H = 1 << 31
+    out = []
+    pats = [[H - 1, H - 1], [H - 1, H], [H, H - 1, 0], [H, H], [U], [U, 1], [U - 1, 1], [U - 1, 2], [U, U], [H, H, 7], [U, U, 1, 1],
+            [H - 1, H - 1, 1], [H - 1, H - 1, 1, 5], [1, U - 1, 3], [0, U, 0, 2]]
+    for i, durs in enumerate(pats):
+        for tts, mts in ((1000, 1000), (90000, 1000), (1000, 90000), (U, 1), (1, U)):
+            kind = KINDS[(i + tts) % len(KINDS)]
+            calls = [{"op": "add", "conf": full_conf(kind, tts, rng)}, {"op": "add", "conf": full_conf("aac", 48000, rng)}]
+            for k, d in enumerate(durs):
+                calls.append({"op": "write", "t": 1, "len": rng.choice([1, 3]), "fill": rng.randrange(1 << 24), "dur": big(d), "cts": 0,
+                              "sync": k == 0, "valid": True})
+            calls.append({"op": "write", "t": 2, "len": 2, "fill": 7, "dur": big(1024), "cts": 0, "sync": True, "valid": True})
+            out.append({"id": "%s-%d" % (tag, len(out)), "seed": len(out),
+                        "cfg": {"major": s4("isom"), "minor": big(512), "brands": [s4("isom")], "timescale": big(mts)},
+                        "pos": [], "calls": calls})
+    return out
+
+
 def c14_cases(tier, rng):
-    cases = []
+    cases = duration_cases(rng, "cfgdur")
     n = 0
     # all audio object types x frequency indices x channel layouts
     combos = [(a, f, c) for a in AOTS for f in range(13) for c in range(1, 8)]
